@@ -5,6 +5,7 @@ package main
 import (
 	"fmt"
 	"math/big"
+	"regexp"
 	"sort"
 	"strings"
 )
@@ -1061,7 +1062,15 @@ func Script(asserts []*Term, prelude string, extraDecls func(used map[string]boo
 			}
 		}
 	}
-	sort.Slice(vars, func(i, j int) bool { return vars[i].id < vars[j].id })
+	// canonical order: by name without the fresh-name counter, so that the text of a query does not depend on
+	// which other functions were processed before this one (solver heuristics are sensitive to the order)
+	sort.SliceStable(vars, func(i, j int) bool {
+		a, b := canonName(vars[i].Name), canonName(vars[j].Name)
+		if a != b {
+			return a < b
+		}
+		return vars[i].id < vars[j].id
+	})
 	for f := range usedFuns {
 		for _, l := range TB.funs[f].Lits {
 			usedStr[l] = true
@@ -1127,6 +1136,11 @@ func Script(asserts []*Term, prelude string, extraDecls func(used map[string]boo
 	}
 	return sb.String()
 }
+
+var canonRe = regexp.MustCompile(`[!?][0-9]+`)
+
+// canonName strips the counters of fresh names
+func canonName(n string) string { return canonRe.ReplaceAllString(n, "") }
 
 func termSize(t *Term, limit int) int {
 	n := 1
